@@ -20,6 +20,7 @@ META = {
         "R11.2": "WithOneOverLength forwards (genome, rng) once to WithRate::new(rate).mutate",
         "R11.3": "UMAD: empty branch shape; main pass into_iter.flat_map([old,new]).flatten.collect; gene sources",
         "R11.4": "panic-site audit over the mutators (unreachable! closures take Infallible; random_bool rate proviso)",
+        "R11.5": "draw wiring behind the degenerate-rate corollaries (strict draw < rate; add/del/del_new roles) - rules shared with C12",
     },
     "trusted_base": ["std iterator adaptors map/flat_map/flatten/collect preserve order; FromIterator impls of Vec/Bitstring/Vector/Plushy collect in order (C18 R18.1 checks the workspace's own)", "uecfacts driver + uecheck rule engine"],
     "assumptions": ["rates lie in [0,1] (rand's random_bool panics otherwise; documented proviso)"],
@@ -75,6 +76,11 @@ def check(ctx):
     disabled = [p for p, _ in main if any(c[0][0] == "discr" and self_field(c[0][1], "empty_addition_rate") and c[1] != 1 for c in p.conds)]
     ctx.check(len(disabled) >= 1, "R11.3", "Umad/disabled-empty-addition-falls-through-to-main-pass", "%d path(s)" % len(disabled), at)
 
+    # ---- R11.5: the degenerate-rate corollaries (rate 0 = identity, flip rate >= 1 flips all, deletion 1 = empty,
+    # addition 1 & deletion 0 = one new gene after each) rest on the draw wiring: re-evaluated here (rules shared with C12)
+    sub = rules_c12._Only(ctx, {"R12.1": "R11.5", "R12.3": "R11.5"})
+    rules_c12.check_with_rate(sub, None, "R12.1")
+    rules_c12.check_umad_rates(sub, "R12.3")
     # ---- panic audit -------------------------------------------------------------
     cg = CallGraph(ctx.F)
     roots = [fn.id for fn in ctx.trait_impl_fns("ec_core::operator::mutator::Mutator::mutate") if fn.crate == "ec_linear"]
